@@ -41,6 +41,8 @@ func RenameOutput(callable syntax.Callable,
 			} else if pipe, ok := c.(*syntax.Pipeline); ok {
 				edits = renameOutputInCalls(callable,
 					oldParam, newParam, pipe, edits)
+				edits = renameOutputInStructInputs(callable,
+					oldParam, newParam, pipe, edits)
 			}
 		}
 	}
@@ -87,6 +89,56 @@ func renameOutputInCalls(callable syntax.Callable,
 						})
 					}
 				}
+			}
+		}
+	}
+	return edits
+}
+
+// Renames references to the output made through an input of the pipeline
+// whose type is the struct made of the callable's outputs (self.foo.old).
+func renameOutputInStructInputs(callable syntax.Callable,
+	oldName, newName string, pipe *syntax.Pipeline, edits editSet) editSet {
+	if pipe.InParams == nil {
+		return edits
+	}
+	for _, param := range pipe.InParams.List {
+		if param.Tname.Tname != callable.GetId() {
+			continue
+		}
+		update := func(binding *syntax.BindStm, call *syntax.CallStm, isMods bool) {
+			if binding.Exp == nil || !binding.Exp.HasRef() {
+				return
+			}
+			exp := updateRefInExp(binding.Exp, syntax.KindSelf,
+				param.Id, oldName, newName)
+			if exp == binding.Exp {
+				return
+			}
+			// Must edit the original AST here or else other edits will be
+			// operating on the incorrect expression.
+			binding.Exp = exp
+			edits = append(edits, &editBinding{
+				Pipeline: pipe,
+				Call:     call,
+				Binding:  binding,
+				Mods:     isMods,
+				Exp:      exp,
+			})
+		}
+		for _, call := range pipe.Calls {
+			for _, binding := range call.Bindings.List {
+				update(binding, call, false)
+			}
+			if call.Modifiers != nil && call.Modifiers.Bindings != nil {
+				for _, binding := range call.Modifiers.Bindings.List {
+					update(binding, call, true)
+				}
+			}
+		}
+		if pipe.Ret != nil && pipe.Ret.Bindings != nil {
+			for _, binding := range pipe.Ret.Bindings.List {
+				update(binding, nil, false)
 			}
 		}
 	}
